@@ -176,3 +176,26 @@ Proof.
   unfold cur_add. revert c. induction kp as [|x r IH]; simpl; intros c; [lia|].
   specialize (IH ((x, E) :: delk x c)). simpl in IH. pose proof (length_delk x c). lia.
 Qed.
+
+(* the success loop of lockKeys also takes the keys out of the previous-attempt map *)
+Definition prev_del (kp : list key) (c : list (key * entry)) := fold_left (fun c k => delk k c) kp c.
+
+Lemma prev_del_find kp c k : findk k (prev_del kp c) = if memk k kp then None else findk k c.
+Proof.
+  unfold prev_del. revert c. induction kp as [|x r IH]; simpl; intros c; auto.
+  rewrite IH. destruct (N.eqb_spec k x).
+  - subst. simpl. destruct (memk x r); auto. apply findk_delk_eq.
+  - simpl. destruct (memk k r); auto. apply findk_delk_ne. congruence.
+Qed.
+
+Lemma prev_del_In kp c p : In p (prev_del kp c) -> In p c.
+Proof.
+  unfold prev_del. revert c. induction kp as [|x r IH]; simpl; intros c H; auto.
+  apply IH in H. apply In_delk in H. tauto.
+Qed.
+
+Lemma prev_del_length kp c : (length (prev_del kp c) <= length c)%nat.
+Proof.
+  unfold prev_del. revert c. induction kp as [|x r IH]; simpl; intros c; auto.
+  specialize (IH (delk x c)). pose proof (length_delk x c). lia.
+Qed.
